@@ -58,7 +58,7 @@ def sectionOffset (n : Nat) : R Nat := do
 def segmentOffset (n : Nat) : R Nat := do
   let phentsize ← hdr.getNat "e_phentsize"
   let phoff ← hdr.getNat "e_phoff"
-  if phoff > 0 && phentsize < (← sizeofR S.Elf_Phdr) then throw .elfError
+  if phentsize < (← sizeofR S.Elf_Phdr) then throw .elfError
   return phoff + n * phentsize
 
 /-- `_get_section_header(n)`: `None` when the entry starts beyond the end of the stream -/
